@@ -18,7 +18,8 @@ func Specs() map[string]*PropSpec {
 	add(&PropSpec{ID: "C09", Explanation: "lists", Rules: []RuleRef{rR20a, rR20b, rR20c, rR20d}})
 	add(&PropSpec{ID: "C04", Explanation: "no crash", Rules: []RuleRef{rR1}})
 	add(&PropSpec{ID: "C02", Explanation: "resp decoding", Rules: []RuleRef{rR9p, rR12c}})
-	add(&PropSpec{ID: "C07", Explanation: "cluster", Rules: []RuleRef{rR23u}})
-	add(&PropSpec{ID: "C08", Explanation: "durability", Rules: []RuleRef{rR16c}})
+	add(&PropSpec{ID: "C07", Explanation: "cluster", Rules: []RuleRef{rR23u, rR16r}})
+	add(&PropSpec{ID: "C08", Explanation: "durability", Rules: []RuleRef{rR16c, rR16r}})
+	add(&PropSpec{ID: "C16", Explanation: "wal", Rules: []RuleRef{rR16w}})
 	return m
 }
